@@ -31,6 +31,8 @@ def configs(t):
         cfg(3, 3, 0, rules=True, F=1, faults=['crash'], warm=6, cost=8),
         cfg(3, 3, 0, late=[2], warm=6, cost=5),
         cfg(3, 3, 0, late=[2], warm=6, core=['zz'], cost=5),
+        # the late joiner is the (only) core instance: the Master elected without it is kept
+        cfg(3, 3, 0, late=[2], warm=6, core=['aa'], cost=5),
         # the Master is lost during a DISTRIBUTION that lasts (slow start) and that a newcomer has joined (CHECKED)
         cfg(3, 3, 0, late=[2], rules=True, slow_start=True, F=1, faults=['crash'], crashable=[1], warm=4, prejoin=2, cost=9),
     ]
